@@ -91,6 +91,8 @@ def jobs_c10(tier, seed):
     jobs = [J('c10_pairing', f'slot sequences of length {L}', len=L) for L in lens]
     # one name two letters long (suffix / prefix relations between names), and long runs of inert tags in front
     jobs += [J('c10_pairing', f'slot sequences of length {L}, y two letters', len=L, ylen=2) for L in (range(2, 4) if tier == 'quick' else range(2, 6))]
+    # names are case-sensitive: letters of either case (two names may differ in nothing but the case of a letter)
+    jobs += [J('c10_pairing', f'slot sequences of length {L}, names of either case', len=L, alpha='mixed') for L in (range(2, 5) if tier == 'quick' else range(2, 7))]
     for pre, lab in ((['o'] * 17, '17 unclosed openers'), (['c'] * 17, '17 stray closers'), (['o', 'c'] * 9, '18 mixed inert tags')):
         jobs.append(J('c10_pairing', f'{lab} in front of slot sequences of length 3', len=3, prefix=pre))
     # tags that carry attributes: the name alone decides the pairing (closing tags with words behind the name, values holding the other quote, line breaks)
@@ -152,12 +154,16 @@ def cross_jobs(prop, tier, seed):
     want_ready = prop == 'C03'
     out = [j for j in c09_opaque_jobs(tier) if bool(j['params']['ready']) == want_ready]
     out += [j for j in props_time.c05_jobs(tier, seed) if j['harness'] == 'c05_pipeline' and bool(j['params']['expect']) == want_ready]
+    # the marker decision as well: a name value that is / is not, as a whole string, one of 0..2 symbolic targets (C06's membership probes)
+    only = 'member' if want_ready else 'non-member'
+    out += [dict(j, params=dict(j['params'], only=only)) for j in props_pipe.c06_jobs(tier, seed) if j['params'].get('mode') == 'membership' and (j['params']['targets'] or not want_ready)]
     return [dict(j, label='[decision probe] ' + j['label']) for j in out]
 
 
 C20_COVERS = ('output-is-input-file', 'output-to-file', 'list-mode', 'list-json-mode', 'input-from-file', 'input-from-stdin', 'something-removed',
               'targets-from-file', 'targets-from-flags', 'no-target-option', 'clean-mode', 'output-to-stdout')
-CROSS_OPTIONAL = ('ready-element-with-opaque-value', 'pending-element-with-opaque-value', 'value-contains-blank-or-eq', 'removed', 'kept')
+CROSS_OPTIONAL = ('ready-element-with-opaque-value', 'pending-element-with-opaque-value', 'value-contains-blank-or-eq', 'removed', 'kept',
+                  'value-is-member', 'value-not-member', 'prefix-of-target', 'empty-target-set', 'skip-attribute', 'keyword-inside-value', 'unregistered-name', 'registered-name')
 
 
 PIPE_ASSUME = COMMON_ASSUME + [
